@@ -97,6 +97,7 @@ def main():
     ap.add_argument('--with-tests', action='store_true')
     ap.add_argument('--tier', default='quick')
     ap.add_argument('--jobs', type=int, default=8)
+    ap.add_argument('--merge', action='store_true', help='with --only: write the re-run entries into the stored result file')
     ap.add_argument('--out', default=os.path.join(VERIF, 'mutants', 'selftest_result.json'))
     a = ap.parse_args()
     ms = load_mutants()
@@ -122,6 +123,12 @@ def main():
             '%s%s' % (r['id'], ' (fires all the same)' if any(c['caught'] for c in r['checks'].values()) else '') for r in oor)))
     if not a.only:
         json.dump({'tier': a.tier, 'results': results}, open(a.out, 'w'), indent=1)
+    elif a.merge and os.path.exists(a.out):
+        # re-run of a few entries: replace them in the stored result of the last complete run (new entries are appended)
+        old = json.load(open(a.out))
+        byid = {r['id']: r for r in results}
+        merged = [byid.pop(r['id'], r) for r in old['results']] + list(byid.values())
+        json.dump({'tier': old.get('tier', a.tier), 'results': merged}, open(a.out, 'w'), indent=1)
     return 0
 
 
